@@ -80,6 +80,25 @@ def classify(record):
         return None
 
 
+def search(ctx, diffs):
+    """the proof or the correspondence broke: look for an input on which the property statement itself fails (three more seeds of
+    every stream); a failure of a known class does not count"""
+    from check import HARNESS, OCAML
+    binp = HARNESS / "target" / "release" / "c05"
+    drv = OCAML / "gen" / "c05" / "drv"
+    cand = [d["record"] for d in diffs[:50]]
+    for s in range(1, 4):
+        for tier in ("quick", "l2-quick"):
+            recs = ctx.harness_gen(binp, tier, ctx.seed + 1000 * s, tag=f"_search_{tier}_{s}")
+            lines = recs.read_text().splitlines()
+            for (n, c, o, _) in ctx.drive(drv, recs):
+                if o == 0 and classify(lines[n - 1]) is None:
+                    cand.insert(0, lines[n - 1])
+                    return {"property": "C05", "kind": "oracle-failure-found-by-search", "records": [lines[n - 1].rsplit("#", 1)[0] + "#"],
+                            "observed": lines[n - 1][:2000], "note": "found while widening the search after a broken proof / correspondence"}
+    return None
+
+
 def extra(ctx, ofails, notes):
     """level 2: real keys; the correspondence column of the driver is not used here (the key-dependent outputs are judged by the oracle,
     which also re-runs the model on the keyless part and compares bit for bit)"""
